@@ -219,6 +219,12 @@ JumpHalf ==
   /\ evs' = <<[e |-> "jumphalf"]>>
   /\ UNCHANGED fly /\ Quiet
 
+(* the user sets max_connection_lifetime again (to the same value) while a connection exists: the lifetime of THAT connection still runs from its establishment *)
+SetLife ==
+  /\ Halves /\ pc = "Idle" /\ Life /\ HasProto
+  /\ evs' = <<[e |-> "setlife"]>>
+  /\ UNCHANGED <<creds, pver, p, pc, op, use, left, calls, nconn, dkey, nkeys, fly, cexp>>
+
 JumpLife ==
   /\ pc = "Idle" /\ Life /\ HasProto /\ ~cexp
   /\ cexp' = TRUE /\ evs' = <<[e |-> "jumplife"]>>
@@ -261,7 +267,7 @@ Step ==
   \/ ConnOK \/ ConnFail("refuse") \/ ConnFail("hang")
   \/ \E i \in 1..MaxFly : Deliver(i)
   \/ \E i \in 1..MaxFly : Lose(i)
-  \/ PeerClose \/ JumpAuth \/ JumpHalf \/ JumpLife
+  \/ PeerClose \/ JumpAuth \/ JumpHalf \/ SetLife \/ JumpLife
   \/ TimerRead \/ CancelRead \/ TimerAuth \/ CancelOther \/ TimerSleep
 
 Next == Step /\ m' = MonSteps(m, evs')
